@@ -6,7 +6,7 @@
 From Verif Require Import Common.Base C20.Model C20.Proofs1 C20.Proofs2 C20.Proofs3 C20.Proofs4.
 (* obligations tying the model's State codes / names / GetState / method set to the translated Go source *)
 From Verif Require C20.Tie.
-From Verif Require Import C20.ObsCheck C20.ObsSound.
+From Verif Require Import C20.ObsCheck C20.ObsSound C20.Repaired.
 
 (* ---- Starting -> Running -> Closing -> Closed --------------------------------------------------- *)
 (* The sequence of setCollectorState values is a word of the automaton [pdelta]:
@@ -296,6 +296,35 @@ Theorem failed_run_returns_the_error : forall o ls k,
   exists l1 e l2, snd (run o init ls) = l1 ++ AReturn e :: l2 /\ e <> RNil /\ count is_return (l1 ++ l2) = 0.
 Proof. exact failed_run_returns_error_l. Qed.
 
+(* ---- the two proposed repairs (work/C20/fix/*.diff), pre-verified on copies of the model ----------------- *)
+(* C20-FATAL-DEADLOCK repaired (the collector keeps receiving from asyncErrorChannel while it shuts a
+   service down): the statement refuted by ends_closed_refuted holds for EVERY history — Run is never
+   blocked, the retirement of a reload always completes, shutdown() always reaches Closed and
+   returns — and the refutation witness itself ends Closed with a nil result. *)
+Theorem ends_closed_repaired : forall o,
+  (forall ls s, st_pc s <> PStuck -> st_pc (fst (run_repaired o s ls)) <> PStuck) /\
+  (forall s b, st_pc s = PReload ->
+     st_pc (fst (step_repaired o s (LRun b))) = PSetup false \/ st_pc (fst (step_repaired o s (LRun b))) = PDone DRetireFail) /\
+  (forall s bg b, st_pc s = PFinal bg ->
+     st_pc (fst (step_repaired o s (LRun b))) = PDone DStopped /\ st_phase (fst (step_repaired o s (LRun b))) = Closed /\
+     exists pre r, snd (step_repaired o s (LRun b)) = pre ++ [ASetState Closed; AReturn r]) /\
+  (let r := run_repaired refute_oracle init refute_history in
+   st_pc (fst r) = PDone DStopped /\ st_phase (fst r) = Closed /\ last_opt (snd r) = Some (AReturn RNil)).
+Proof.
+  exact (fun o => conj (never_stuck_repaired o) (conj (reload_step_repaired o) (conj (final_step_repaired o) refutation_witness_repaired))).
+Qed.
+
+(* C20-WATCH-SEND-ON-CLOSED repaired (Resolver.Shutdown releases the blocked senders before it closes
+   the watcher channel): the collector goes through exactly the same states, the log is the faithful
+   one without the panics, and no provider goroutine panics in ANY history. *)
+Theorem orderly_shutdown_repaired : forall o ls s,
+  fst (run_watchfix o s ls) = fst (run o s ls) /\
+  snd (run_watchfix o s ls) = filter not_panic (snd (run o s ls)) /\
+  count is_sender_panic (snd (run_watchfix o s ls)) = 0.
+Proof.
+  exact (fun o ls s => conj (proj1 (run_watchfix_spec o ls s)) (conj (proj2 (run_watchfix_spec o ls s)) (no_panic_watchfix o ls s))).
+Qed.
+
 Print Assumptions phase_order.
 Print Assumptions phase_order_in_words.
 Print Assumptions one_live_service.
@@ -329,3 +358,5 @@ Print Assumptions observed_clause_checker_is_sound.
 Print Assumptions no_bringup_after_failed_shutdown.
 Print Assumptions failed_run_returns_the_error.
 Print Assumptions initial_failure_ends_closed.
+Print Assumptions ends_closed_repaired.
+Print Assumptions orderly_shutdown_repaired.
